@@ -37,8 +37,10 @@ def run_impl(cls, N, prog, l, mode, variant='orig', obj='list', direction='forwa
             layer.compile(N)
     elif mode == 2:
         c.compile()
-    if variant == 'copy' and cls == 'CliffordCircuit':
+    if variant in ('copy', 'copy2') and cls == 'CliffordCircuit':
         c = c.copy()
+        if variant == 'copy2':
+            c = c.copy()
     o = NP.PL(l) if obj == 'list' else NP.STATE(l)
     if direction == 'forward':
         c.forward(o)
